@@ -381,9 +381,8 @@ Proof.
   - unfold RowsMetadata_okb, norm_RowsMetadata in *.
     cbn [rm_ColumnCount rm_PagingState rm_NewResultMetadataId rm_ContinuousPageNumber rm_LastContinuousPage rm_Columns].
     rewrite zlen_map, Hc1. split_andb.
-    repeat (apply andb_true_intro; split); try assumption; try lia.
-    + destruct (rm_ContinuousPageNumber m >? 0); lia.
-    + destruct (Z.gtb_spec (rm_ContinuousPageNumber m) 0); [|lia]. assumption.
+    destruct (Z.gtb_spec (rm_ContinuousPageNumber m) 0);
+      repeat (apply andb_true_intro; split); try assumption; try lia.
   - unfold norm_RowsMetadata.
     cbn [rm_ColumnCount rm_PagingState rm_NewResultMetadataId rm_ContinuousPageNumber rm_LastContinuousPage rm_Columns].
     rewrite Hc2. destruct (Z.gtb_spec (rm_ContinuousPageNumber m) 0) as [Hg|Hg].
@@ -401,11 +400,11 @@ Lemma VariablesMetadata_okb_spec version m : VariablesMetadata_okb version m = t
   (Z.geb version ProtocolVersion4 = true -> zlen (vm_PkIndices m) < 2147483648 /\ Forall in_u16 (vm_PkIndices m)) /\
   (Z.geb version ProtocolVersion4 = false -> vm_PkIndices m = []).
 Proof.
-  unfold VariablesMetadata_okb. intro H. split_andb. repeat split; try lia; try assumption.
-  - rewrite H1 in *. split_andb. lia.
-  - rewrite H1 in *. split_andb. rewrite Forall_forall. rewrite forallb_forall in *. intros x Hx.
-    match goal with Hf : forall x, In x _ -> _ = true |- _ => specialize (Hf x Hx) end. unfold in_u16. lia.
-  - intro E. rewrite E in *. apply zlen_zero_nil. lia.
+  unfold VariablesMetadata_okb. intro H. apply andb_prop in H. destruct H as [H Hpk]. apply andb_prop in H. destruct H as [Hc Hn].
+  split; [exact Hc|]. split; [lia|]. split; intro E; rewrite E in Hpk.
+  - apply andb_prop in Hpk. destruct Hpk as [Hl Hr]. split; [lia|]. rewrite Forall_forall. rewrite forallb_forall in Hr.
+    intros x Hx. specialize (Hr x Hx). unfold in_u16. lia.
+  - apply zlen_zero_nil. lia.
 Qed.
 
 Lemma enc_variables_metadata_None version : enc_variables_metadata version None = enc_variables_metadata version (Some empty_VariablesMetadata).
